@@ -15,6 +15,16 @@ fraction).
                          (that the integral has this value is theorem `C15.overlap_integral_eq_closed_form`;
                          that `scipy.integrate.quad` returns the value of the integral is its contract, measured by
                          the correspondence check)
+  * `pfNormLoadCode`   = `pf_norm_load(load_median, load_std, lower_limit, upper_limit)` AS THE CODE COMPUTES IT
+                         (repaired code, commit 2a91979 + tools/fixes/C15-pf-norm-load-break-points-clear-of-limits.diff):
+                         the limits are standardised (`t = (log10 load − log10 load_median) / load_std`, default ±16, explicit ones
+                         clipped to ±16),
+                         `loc = s_50 − log10 load_median`; for `loc ≥ 0` the result is `quad(pdf(t) · cdf((sc·t − loc)/s_std))`,
+                         otherwise `cdf(upper) − cdf(lower) − quad(pdf(t) · sf((sc·t − loc)/s_std))`.  `quad` (the value
+                         scipy's adaptive quadrature is contracted to deliver), `Φ`, the survival function `Ψ` and the
+                         density `φ` are PARAMETERS: the proofs instantiate `quad` with the interval integral
+                         (`C15.pf_norm_load_code_eq_window_integral`, `C15.pf_norm_load_code_near_closed_form`), the driver
+                         with a composite 8-point Gauss–Legendre rule on the pieces the code's break points define.
   * `pfArbitraryLoad`  = `pf_arbitrary_load(load_values, load_pdf)`: the composite trapezoidal rule of
                          `np.trapezoid(load_pdf * cdf_S(load_values), x = load_values)`.
 
@@ -46,6 +56,40 @@ def pfNormLoad (Φ : α → α) (strengthMedian strengthStd loadMedian loadStd :
 /-- the complementary probability `1 − pf` evaluated without cancellation (`Φ(−z)`) -/
 def survNormLoad (Φ : α → α) (strengthMedian strengthStd loadMedian loadStd : α) : α :=
   Φ (-(safetyIndex strengthMedian strengthStd loadMedian loadStd))
+
+/-- `np.clip(x, -16, 16)`: beyond 16 load standard deviations the code neglects the load (its default range) -/
+def clip16 (x : α) : α := if x < -16.0 then -16.0 else if x > 16.0 then 16.0 else x
+
+/-- standardised integration limit: `None` → the default, else `(limit − log10 load_median) / load_std` clipped to ±16 -/
+def stdLimit (dflt : α) (loadMedian loadStd : α) : Option α → α
+  | none => dflt
+  | some l => clip16 ((l - Transc.log10 loadMedian) / loadStd)
+
+/-- `pf_norm_load(load_median, load_std, lower_limit, upper_limit)` as the code computes it; `quad f a b` stands for
+`scipy.integrate.quad(f, a, b, …)[0]`, `Ψ` for `norm.sf`, `φ` for `norm.pdf`. -/
+def pfNormLoadCode (Φ Ψ φ : α → α) (quad : (α → α) → α → α → α)
+    (strengthMedian strengthStd loadMedian loadStd : α) (lower upper : Option α) : α :=
+  let lo := stdLimit (-16.0) loadMedian loadStd lower
+  let hi := stdLimit 16.0 loadMedian loadStd upper
+  let loc := Transc.log10 strengthMedian - Transc.log10 loadMedian
+  if loc ≥ 0.0 then quad (fun t => φ t * Φ ((loadStd * t - loc) / strengthStd)) lo hi
+  else Φ hi - Φ lo - quad (fun t => φ t * Ψ ((loadStd * t - loc) / strengthStd)) lo hi
+
+/-- positive half of the 8-point Gauss–Legendre rule on [-1, 1]: (node, weight) -/
+def gl8 : List (α × α) :=
+  [(0.18343464249564978, 0.36268378337836166), (0.525532409916329, 0.3137066458778869),
+   (0.7966664774136267, 0.22238103445337443), (0.9602898564975362, 0.10122853629037706)]
+
+/-- one Gauss–Legendre panel on `[a, a + h]` -/
+def glPanel (f : α → α) (a h : α) : α :=
+  let c := a + h / 2.0
+  let r := h / 2.0
+  r * (gl8.foldl (fun s (p : α × α) => s + p.2 * (f (c - r * p.1) + f (c + r * p.1))) 0.0)
+
+/-- `n` consecutive panels of width `h` starting at `a`, added to `acc` -/
+def glComposite (f : α → α) (h : α) : Nat → α → α → α
+  | 0, _, acc => acc
+  | n + 1, a, acc => glComposite f h n (a + h) (acc + glPanel f a h)
 
 /-- composite trapezoidal rule `np.trapezoid(y, x = x)` on a list of nodes `(x, y)` -/
 def trapezoid : List (α × α) → α
